@@ -51,6 +51,13 @@ MSG(1) MSG(2) MSG(3) MSG(4)
 CMSG(2)
 #define SUB(K) extern "C" void sub_##K(double* base, P##K) { multi::subarray<double, K> v(mk##K(Q##K), base); MPI_Datatype t; multi::mpi::create_subarray(v.layout(), MPI_DOUBLE, &t); MPI_Type_commit(&t); sink(v.base(), 1, t); MPI_Type_free(&t); }
 SUB(1) SUB(2) SUB(3)
+// ownership transfers of the committed datatype: message(buf, skeleton&&), skeleton(skeleton&&), std::move(skeleton).datatype()
+#define SKMSG(K) extern "C" void skmsg_##K(double* base, P##K) { multi::subarray<double, K> v(mk##K(Q##K), base); multi::mpi::skeleton<> sk(v.layout(), MPI_DOUBLE); multi::mpi::message<> m(v.base(), std::move(sk)); sink(m.buffer(), m.count(), m.datatype()); }
+SKMSG(1) SKMSG(2)
+#define SKMOVE(K) extern "C" void skmove_##K(double* base, P##K) { multi::subarray<double, K> v(mk##K(Q##K), base); multi::mpi::skeleton<> a(v.layout(), MPI_DOUBLE); multi::mpi::skeleton<> b(std::move(a)); sink(v.base(), b.count(), b.datatype()); }
+SKMOVE(1) SKMOVE(2)
+#define SKOUT(K) extern "C" void skout_##K(double* base, P##K) { multi::subarray<double, K> v(mk##K(Q##K), base); multi::mpi::skeleton<> a(v.layout(), MPI_DOUBLE); long const n = a.count(); MPI_Datatype t = std::move(a).datatype(); sink(v.base(), n, t); MPI_Type_free(&t); }
+SKOUT(1) SKOUT(2)
 extern "C" void data_1(double* base, P1) { multi::subarray<double, 1> v(mk1(Q1), base); multi::mpi::data d(v.begin()); sink(d.buffer(), 1, d.datatype()); }
 """
 
@@ -178,7 +185,9 @@ def run(tier):
     dims = (1, 2, 3) if tier == "quick" else (1, 2, 3, 4)
     n = 0
     jobs = [("message(v.elements())", "msg_%d" % D, D) for D in dims] + [("message(const view .elements())", "cmsg_2", 2)] + \
-           [("create_subarray(layout)", "sub_%d" % D, D) for D in (1, 2, 3)] + [("data(iterator)", "data_1", 1)]
+           [("create_subarray(layout)", "sub_%d" % D, D) for D in (1, 2, 3)] + [("data(iterator)", "data_1", 1)] + \
+           [("message(buf, skeleton&&)", "skmsg_%d" % D, D) for D in (1, 2)] + [("skeleton(skeleton&&)", "skmove_%d" % D, D) for D in (1, 2)] + \
+           [("std::move(skeleton).datatype()", "skout_%d" % D, D) for D in (1, 2)]
     for what, fn, D in jobs:
         # case split: every size is 1 or >= 2 in thorough (count-1 levels are dropped by MPI and by the canonical form alike); quick: all >= 1 generic
         size_classes = [tuple(">" for _ in range(D))]
